@@ -145,6 +145,9 @@ def solve_minor_model(
 
     log.debug("[minor] major= {}", major_sol._solution_nice())
     model = lpinterface.model("AldyMinor", solver)
+    # Fix the order of the variables (and thus of the tie-breaking coefficients below):
+    # the iteration order of a set of mutations depends on the interpreter's hash seed
+    mutations = sorted(mutations)  # type: ignore
     debug_info = json[gene.name]["minor"][len(json[gene.name]["minor"])]
 
     # Establish minor alleles and their mutations
